@@ -47,11 +47,15 @@ type Run struct {
 	Obs    []Obs
 	ObsOp  []int // index of the op behind each observation
 	Errs   []string
+	// TieSwitches counts honest proposals that leave the proposer's previous own block's chain for a head of the
+	// same (not higher) quality — runs with such a proposal are outside the fork-choice premise of bft_safety_partial.
+	TieSwitches int
+	lastOwn     map[int]thor.Bytes32
 }
 
 func Exec(sc *Script) *Run {
 	sim := NewSim(sc.Cfg)
-	r := &Run{Sim: sim, Named: map[int]*block.Block{}, NameOf: map[thor.Bytes32]int{}}
+	r := &Run{Sim: sim, Named: map[int]*block.Block{}, NameOf: map[thor.Bytes32]int{}, lastOwn: map[int]thor.Bytes32{}}
 	for _, m := range sc.Nodes {
 		r.Nodes = append(r.Nodes, sim.NewNode(m))
 	}
@@ -76,6 +80,9 @@ func (r *Run) exec(i int, op Op) {
 		}
 		n := r.Nodes[op.Node]
 		best := n.Repo.BestBlockSummary().Header
+		if last, ok := r.lastOwn[op.Node]; ok && !r.Sim.Ancestor(last, best.ID()) && n.ScratchState(last).Q >= n.ScratchState(best.ID()).Q {
+			r.TieSwitches++
+		}
 		b, code, pre, err := n.Propose(best.ID(), best.TotalScore()+op.Score, op.Salt)
 		if err != nil {
 			r.Errs = append(r.Errs, fmt.Sprintf("op %d propose: %v", i, err))
@@ -85,6 +92,7 @@ func (r *Run) exec(i int, op Op) {
 			r.events = append(r.events, simEvent{kind: "P", node: op.Node, parent: best.ID()})
 		} else {
 			r.name(b, op.Name)
+			r.lastOwn[op.Node] = b.Header().ID()
 			r.events = append(r.events, simEvent{kind: "P", node: op.Node, blk: b})
 		}
 		r.Obs = append(r.Obs, n.Observe(code, pre, b))
